@@ -44,6 +44,10 @@ func c10Values() []interface{} {
 		bson.A{bson.A{int32(1)}}, bson.A{bson.A{int32(1), int32(2)}, bson.A{int32(3)}},
 		D(E("b", bson.A{})), bson.A{D(E("b", bson.A{}))}, bson.A{D(E("b", nil))}, bson.A{int32(0), int32(10)},
 		bson.A{D(E("b", bson.A{int32(0), int32(5)})), D(E("b", bson.A{int32(2)}))}, bson.A{D(E("b", bson.A{int32(0), int32(5)}))},
+		// negative and wide numbers of every numeric type (sign extension in the $bits family, $mod of negatives)
+		int32(-1), int32(-6), int64(-5), -3.0, int64(1<<35 | 2), bson.A{int32(-2), D(E("b", int32(-1)))},
+		// an embedded empty document next to a non-empty one
+		bson.A{D(), D(E("b", D()))},
 	}
 }
 
@@ -69,7 +73,7 @@ func c10Leaves() []c10Leaf {
 	E := func(k string, v interface{}) bson.E { return bson.E{Key: k, Value: v} }
 	paths := []string{"a", "a.b", "a.0", "a.b.0", "a.0.b", "c"}
 	cmpOperands := []interface{}{nil, int32(1), int32(2), int64(1), 1.5, math.NaN(), "a", "b", true, primitive.DateTime(1000), oid(1),
-		D(E("b", int32(1))), bson.A{int32(1), int32(2)}, bson.A{}}
+		D(E("b", int32(1))), bson.A{int32(1), int32(2)}, bson.A{}, bson.D{}, int32(-1)}
 	lists := []bson.A{{int32(1)}, {int32(1), "a"}, {nil}, {int32(2), 1.5}, {bson.A{int32(1), int32(2)}}, {D(E("b", int32(1)))}, {}, {"b", true, int32(2)}}
 	var out []c10Leaf
 	add := func(path, op string, operand interface{}) {
@@ -122,7 +126,8 @@ func c10Leaves() []c10Leaf {
 			add(p, "$mod", o)
 		}
 		for _, op := range []string{"$bitsAllSet", "$bitsAnySet", "$bitsAllClear", "$bitsAnyClear"} {
-			for _, o := range []interface{}{int32(1), int32(3), bson.A{int32(1)}, bson.A{int32(0), int32(2)}, primitive.Binary{Data: []byte{4}}, int64(6)} {
+			for _, o := range []interface{}{int32(1), int32(3), bson.A{int32(1)}, bson.A{int32(0), int32(2)}, primitive.Binary{Data: []byte{4}}, int64(6),
+				int64(1 << 35), bson.A{int32(40)}, bson.A{int32(31), int32(32)}, bson.A{int32(63)}, primitive.Binary{Data: []byte{0, 0, 0, 0, 8}}} {
 				add(p, op, o)
 			}
 		}
